@@ -843,3 +843,50 @@ def run(facts, rep, module=MODULE, adt=ADT, floor=50, order=True):
         check_order(eng, rep)
     rep.inventory['E4 width summaries of in-module u64 functions'] = {k: v for k, v in eng._wsum.items() if v}
     return eng
+
+
+def check_display(facts, rep):
+    """O5 (C17, "printing matches a plain list of booleans for every length from 0"): Display writes one character per
+    element - its only writes to the formatter happen inside a loop over self.iter() (one `fmt` of the element per
+    iteration), and Debug delegates to Display. Handing the packed word `self.val` to a numeric formatter prints at least
+    one digit, so the empty sequence would print as "0" and be indistinguishable from zeros(1)."""
+    import re
+    from symex import SymEx, show
+    D = 'yui::<misc::bitseq::BitSeq as std::fmt::Display>::fmt'
+    G = 'yui::<misc::bitseq::BitSeq as std::fmt::Debug>::fmt'
+    d, g = facts.bodies.get(D), facts.bodies.get(G)
+    if not (d and g):
+        rep.indet('E4.O5: Display / Debug for BitSeq not found')
+        return
+    rep.saw(d)
+    rep.saw(g)
+
+    def dk(t):
+        return re.sub(r'&mut _\d+', 'IT', re.sub(r'#\d+\.\d+', '', show(t, -1000))).replace('&', '').replace('*', '')
+    whole = []
+    per_elem = 0
+    outside = []
+    for p in SymEx(d, havoc_loops=True, max_paths=5000).run():
+        in_loop = any(dk(e.term) == 'discr(next(IT))' and e.value == 1 for e in p.branches())
+        for e in p.calls():
+            nm = e.name.split('::')[-1]
+            args = [dk(a) for a in e.args]
+            if any(re.search(r'arg1\.val\b', a) for a in args) and nm not in ('iter', 'len'):
+                whole.append('%s(%s)' % (nm, ', '.join(a[:40] for a in args)))
+            if nm in ('fmt', 'write_str', 'write_char', 'write_fmt') and any('arg2' in a for a in args):
+                if args and args[0] == 'next(IT).Some.0' and in_loop:
+                    per_elem += 1
+                else:
+                    outside.append('%s(%s)' % (nm, ', '.join(a[:50] for a in args)))
+    inst = 'BitSeq Display|one character per element, nothing for the empty sequence'
+    if whole:
+        rep.violation('E4.O5-display-per-element', inst, 'Display formats the packed value (%s): a number is printed with at least one digit, so the empty sequence prints as "0" instead of ""' % whole[0], where=d.where())
+    elif per_elem and not outside:
+        rep.ok('E4.O5-display-per-element', inst, 'for b in self.iter() { fmt(b) }')
+    else:
+        rep.indet('E4.O5: Display of BitSeq outside the recognised fragment: writes %s' % (outside[:2] or 'none'))
+    gr = {dk(p.ret) for p in SymEx(g).run() if p.end == 'return'}
+    if gr == {'fmt(arg1, mut arg2)'} or gr == {'fmt(arg1, arg2)'}:
+        rep.ok('E4.O5-display-per-element', 'BitSeq Debug|delegates to Display', 'fmt(self, f)')
+    else:
+        rep.indet('E4.O5: Debug of BitSeq is %s' % sorted(gr))
